@@ -9,5 +9,8 @@ cSingles == cUnits \cup cSums \cup cISums
 cNoJumps == {<<>>}
 cJumpsFull == {<<>>} \cup {<<j>> : j \in cSingles}
                \cup {<<<<Z, O, Z, Z>>, <<Z, Z, Z, O>>>>, <<<<Z, O, Z, Z>>, <<Z, O, Z, Z>>>>, <<<<Z, Z, O, Z>>, <<O, Z, Z, Z>>, <<O, Z, Z, <<0 - 1, 0>>>>>>}
+cJumpsMid == {<<>>} \cup {<<j>> : j \in cUnits}
+             \cup {<<<<Z, O, O, Z>>>>, <<<<O, Z, Z, O>>>>, <<<<O, O, Z, Z>>>>, <<<<Z, O, I1, Z>>>>, <<<<O, Z, Z, I1>>>>, <<<<Z, I1, Z, O>>>>}
+             \cup {<<<<Z, O, Z, Z>>, <<Z, Z, Z, O>>>>, <<<<Z, O, Z, Z>>, <<Z, O, Z, Z>>>>, <<<<Z, Z, O, Z>>, <<O, Z, Z, Z>>, <<O, Z, Z, <<0 - 1, 0>>>>>>}
 cJumpsSmall == {<<>>, <<<<Z, O, Z, Z>>>>, <<<<O, Z, Z, <<0 - 1, 0>>>>>>, <<<<Z, O, I1, Z>>>>, <<<<Z, O, Z, Z>>, <<Z, Z, Z, O>>>>}
 ====
